@@ -17,8 +17,9 @@
         that is only in a parentless Eof line (sol_deep in WrapSearchDeepProofs does not record where child lines
         come from) — it stays the monitored predicate `eofcanon` of the driver. *)
 From Coq Require Import Lia.
+From PasfmtVerif Require Import Proofs.LexerProofs Proofs.FormatRescanProofs.
 From PasfmtVerif Require Import Model.Format Model.Canon Proofs.FormatProofs Proofs.FormatWrapProofs Proofs.FormatIgnoredProofs
-  Proofs.WrapApplyProofs Proofs.ReconstructProofs Proofs.MLStringProofs Proofs.WrapStepProofs.
+  Proofs.WrapApplyProofs Proofs.ReconstructProofs Proofs.MLStringProofs Proofs.WrapStepProofs Proofs.ToggleProofs.
 Local Open Scope nat_scope.
 
 (* ------------------------------------------------------------------ *)
@@ -202,6 +203,70 @@ Theorem format_eofnl_sets_canon alnum segs r tok f :
   fm_l4 alnum segs = r ++ [(tok, mkFmt (f_ignored f) 1 0 0 0)].
 Proof. intros E He Hx. unfold fm_l4. exact (eof_newline_lines_last _ _ r tok f E He Hx). Qed.
 
+(* the lexer's last token is the Eof token (empty content), and it is the only one *)
+Lemma lexed_last_eof toks s : lexed toks s ->
+  exists r ws, segments toks s = r ++ [(ws, [], RTT_Eof)] /\ Forall (fun sg : seg => seg_ty sg <> RTT_Eof) r.
+Proof.
+  induction 1 as [ws Hws|ws b c rest ty toks Hws Hb Hu Hty Hl IH].
+  - exists [], ws. rewrite segments_eof. split; [reflexivity|constructor].
+  - destruct IH as (r & ws' & E & F). exists ((ws, b :: c, ty) :: r), ws'. rewrite segments_tok, E. split; [reflexivity|].
+    constructor; [exact Hty|exact F].
+Qed.
+
+Theorem lex_last_is_eof s segs : lex_segments s = Some segs ->
+  exists r ws, segs = r ++ [(ws, [], RTT_Eof)] /\ Forall (fun sg : seg => seg_ty sg <> RTT_Eof) r.
+Proof.
+  unfold lex_segments. destruct (lex s) as [toks|] eqn:E; [|discriminate]. intros [= <-].
+  apply lexed_last_eof, lex_lexed, E.
+Qed.
+
+Lemma eof_tok_untouched alnum tok f : t_ty tok = TT_Eof -> fst (comment_tok alnum (lowercase_tok (tok, f))) = tok.
+Proof.
+  intros Ht. unfold lowercase_tok. destruct (f_ignored f) eqn:I.
+  - unfold comment_tok. rewrite I. reflexivity.
+  - rewrite Ht. cbn [is_keyword andb]. unfold comment_tok. rewrite I, Ht. reflexivity.
+Qed.
+
+(* hence, unconditionally: if an Eof line survived the voiding, the vector handed to the wrapper ends in the Eof token with
+   empty text and the counters (1,0,0,0) *)
+Theorem fm_l4_eof_canon alnum s segs :
+  lex_segments s = Some segs ->
+  existsb (fun ln => ll_type ln IS LLT_Eof) (fm_lines segs) = true ->
+  exists r tok m, fm_l4 alnum segs = r ++ [(tok, mkFmt m 1 0 0 0)] /\ is_eof (t_ty tok) = true /\ t_content tok = []
+                  /\ nth_error (fm_marks segs) (length segs - 1) = Some m.
+Proof.
+  intros Hl Hx. destruct (lex_last_is_eof s segs Hl) as (r0 & ws & E & _).
+  assert (Hlen : length segs = S (length r0)) by (rewrite E, app_length; cbn; lia).
+  assert (Hs : nth_error segs (length r0) = Some (ws, [], RTT_Eof)).
+  { rewrite E, nth_error_app2, PeanoNat.Nat.sub_diag by lia. reflexivity. }
+  destruct (FormatRescanProofs.fm_toks_class segs (length r0) _ Hs) as (tok0 & Ht0 & _ & Hc0 & Hcl0).
+  assert (Hty0 : t_ty tok0 = TT_Eof).
+  { cbn [Format.seg_ty snd] in Hcl0. destruct (t_ty tok0); cbn in Hcl0; try discriminate. reflexivity. }
+  assert (Hm : length r0 < length (fm_marks segs)) by (rewrite fm_marks_length; lia).
+  destruct (nth_error (fm_marks segs) (length r0)) as [m|] eqn:Em; [|apply nth_error_None in Em; lia].
+  assert (H0 : nth_error (fm_l0 segs) (length r0) = Some (tok0, fmt_of_ws (t_ws tok0) m))
+    by (unfold fm_l0; rewrite nth_error_map, (ToggleProofs.combine_nth_error _ _ _ _ _ Ht0 Em); reflexivity).
+  destruct (proj2 (FormatRescanProofs.spacing_fst (fm_l0 segs)) _ _ H0) as ([t1 f1] & H1 & F1 & I1). cbn [fst snd] in F1, I1. subst t1.
+  assert (H3 : nth_error (fm_l3 alnum segs) (length r0) = Some (comment_tok alnum (lowercase_tok (tok0, f1)))).
+  { unfold fm_l3, fm_l2, fm_l1, comment_formatter, lowercase_keywords. rewrite !nth_error_map, H1. reflexivity. }
+  assert (H3len : length (fm_l3 alnum segs) = S (length r0)).
+  { unfold fm_l3, fm_l2, fm_l1, comment_formatter, lowercase_keywords. rewrite !map_length.
+    rewrite (proj1 (spacing_stage (fm_l0 segs))), fm_l0_length. exact Hlen. }
+  destruct (exists_last (l := fm_l3 alnum segs)) as (r & [tok f] & E3); [intros E0; rewrite E0 in H3len; discriminate|].
+  assert (Hr : length r = length r0) by (rewrite E3, app_length in H3len; cbn in H3len; lia).
+  rewrite E3, nth_error_app2, Hr, PeanoNat.Nat.sub_diag in H3 by lia. cbn [nth_error] in H3.
+  assert (H3' : (tok, f) = comment_tok alnum (lowercase_tok (tok0, f1))) by congruence. clear H3. rename H3' into H3.
+  assert (Etok : tok = tok0).
+  { pose proof (f_equal fst H3) as Hf. cbn [fst] in Hf. rewrite Hf. apply eof_tok_untouched, Hty0. }
+  assert (Ef : f_ignored f = m).
+  { destruct (comment_tok_stage alnum (lowercase_tok (tok0, f1))) as (_ & A & _).
+    destruct (lowercase_tok_stage (tok0, f1)) as (_ & B & _). rewrite <- H3 in A. cbn [snd] in A, B.
+    rewrite A, B, I1. reflexivity. }
+  subst tok. assert (He : is_eof (t_ty tok0) = true) by (rewrite Hty0; reflexivity).
+  exists r, tok0, m. split; [rewrite <- Ef; apply (format_eofnl_sets_canon alnum segs r tok0 f E3 He Hx)|]. split; [exact He|].
+  split; [rewrite Hc0; reflexivity|]. rewrite Hlen. replace (S (length r0) - 1) with (length r0) by lia. exact Em.
+Qed.
+
 (* non-vacuity: `A;` — the hypotheses of format_ends_with_newline hold, and the output is the text of `A;` and one LF *)
 Example format_ends_with_newline_example :
   let s := [65; 59]%N in
@@ -224,3 +289,4 @@ Proof. vm_compute. split; reflexivity. Qed.
 Print Assumptions format_line_breaks.
 Print Assumptions format_crlf_is_subst.
 Print Assumptions format_ends_with_newline.
+Print Assumptions fm_l4_eof_canon.
